@@ -208,7 +208,7 @@ pub fn run(in_path: &str, out_path: &str) -> Result<(), String> {
                 }
                 if ok {
                     out.insert("trees".into(), json!(trees.iter().map(structure).collect::<Vec<_>>()));
-                    #[cfg(hctl_verif)]
+                    #[cfg(all(hctl_verif, feature = "canon_hook"))]
                     {
                         use biodivine_hctl_model_checker::evaluation::canonization_export::{get_canonical, get_canonical_and_renaming};
                         fn walk(t: &HctlTreeNode, acc: &mut Vec<Value>) {
